@@ -4,7 +4,7 @@
    Statements only; proofs are in Proofs/C02_proofs.v and Proofs/Session_proofs.v.
    The model (Model/Session.v) is tied to the real provider by harness/drv_C02.py on every run. *)
 From Coq Require Import String ZArith List.
-From Verif Require Import Lib.Base Lib.PyStr Model.Session Model.SessionCheck Proofs.Session_proofs Proofs.C02_proofs.
+From Verif Require Import Lib.Base Lib.PyStr Model.Session Model.SessionCheck Proofs.Session_proofs Proofs.Session_gone Proofs.C02_proofs.
 From Verif Require Gen.Src_token Proofs.Src_refine.
 Import ListNotations.
 Open Scope string_scope.
@@ -58,18 +58,73 @@ Theorem C02_bound : forall cf c s o s1 x,
 Proof. exact redeem_bound. Qed.
 Print Assumptions C02_bound.
 
-(* OIDC token endpoint: presenting a used code is refused and revokes every token minted from it (as long as the
+(* THE CONFIGURATION FLAG c_remove_inactive (session_params.remove_inactive_token, documented, default off).  With it
+   on, Grant.revoke_token takes the revoked tokens off grant.issued_token ("gone": still decrypting, still naming their
+   session, no longer found by Grant.get_token).  Every statement above is for EVERY configuration, hence for both values
+   of the flag; spelled out for the single-use clause: *)
+Theorem C02_single_use_either_flag : forall (b : bool) cf pre o rd s1 c scope post,
+  c_remove_inactive cf = b ->
+  issues o rd -> step cf (fst (run cf init pre)) o = (s1, OAuthz c scope) -> (redeems c cf s1 post <= 1)%nat.
+Proof. exact single_use_either_flag. Qed.
+Print Assumptions C02_single_use_either_flag.
+(* an exchange that yields tokens was made for a code its grant still lists: whatever takes a code off the list, the
+   code is not exchanged afterwards *)
+Theorem C02_redeemed_code_is_listed : forall cf c s o s1 x,
+  step cf s o = (s1, x) -> is_redeem c s o x = true -> exists g t, find_tok c s = Some (g, t) /\ t_gone t = false.
+Proof. exact redeem_listed. Qed.
+Print Assumptions C02_redeemed_code_is_listed.
+(* in every state any history reaches: only revoked tokens have left a list, and only under the flag *)
+Theorem C02_gone_only_revoked : forall cf ops k t,
+  tget k (fst (run cf init ops)) = Some t -> t_gone t = true -> c_remove_inactive cf = true /\ t_revoked t = true.
+Proof. exact gone_only_revoked. Qed.
+Print Assumptions C02_gone_only_revoked.
+
+(* OIDC token endpoint: presenting a used code is refused and revokes the tokens minted from it (as long as the
    session the code belongs to is in the database: after SessionManager.remove_session the code does not resolve
-   at all, the parse step raises - see C03_removed_never_honoured). *)
+   at all, the parse step raises - see C03_removed_never_honoured).
+   BOTH values of the flag, ANY state: if the grant still lists the code, every token minted from it that the grant still
+   lists is revoked (flag off: the cascade; flag on: the top level of the library's depth-first walk visits each). *)
 Theorem C02_oidc_replay_revokes : forall cf s cl id redir s1 x g t,
   c_oidc cf = true ->
-  find_tok id s = Some (g, t) -> g_removed g = false -> t_cls t = Code -> t_used t <> 0%Z ->
+  find_tok id s = Some (g, t) -> g_removed g = false -> t_cls t = Code -> t_used t <> 0%Z -> t_gone t = false ->
   step cf s (TokenParse cl (TRef id) redir) = (s1, x) ->
   x = OErr EInvalidGrant /\
-  forall k tk, tget k s = Some tk -> t_grant tk = t_grant t -> t_based tk = Some id ->
+  forall k tk, tget k s = Some tk -> t_grant tk = t_grant t -> t_based tk = Some id -> t_gone tk = false ->
                exists tk', tget k s1 = Some tk' /\ t_revoked tk' = true.
 Proof. exact oidc_replay_revokes. Qed.
 Print Assumptions C02_oidc_replay_revokes.
+(* BOTH values of the flag, every state a history reaches: if the grant still lists the code, EVERY token minted from it
+   - listed or not - is revoked after the second presentation. *)
+Theorem C02_oidc_replay_revokes_reachable : forall cf ops cl id redir s1 x g t,
+  c_oidc cf = true ->
+  find_tok id (fst (run cf init ops)) = Some (g, t) -> g_removed g = false -> t_cls t = Code -> t_used t <> 0%Z -> t_gone t = false ->
+  step cf (fst (run cf init ops)) (TokenParse cl (TRef id) redir) = (s1, x) ->
+  x = OErr EInvalidGrant /\
+  forall k tk, tget k (fst (run cf init ops)) = Some tk -> t_grant tk = t_grant t -> t_based tk = Some id ->
+               exists tk', tget k s1 = Some tk' /\ t_revoked tk' = true.
+Proof. exact oidc_replay_revokes_reachable. Qed.
+Print Assumptions C02_oidc_replay_revokes_reachable.
+(* Flag OFF (the default configuration), every state a history reaches: no side condition at all - the statement this
+   file made before the flag existed ... *)
+Theorem C02_oidc_replay_revokes_default : forall cf ops cl id redir s1 x g t,
+  c_remove_inactive cf = false -> c_oidc cf = true ->
+  find_tok id (fst (run cf init ops)) = Some (g, t) -> g_removed g = false -> t_cls t = Code -> t_used t <> 0%Z ->
+  step cf (fst (run cf init ops)) (TokenParse cl (TRef id) redir) = (s1, x) ->
+  x = OErr EInvalidGrant /\
+  forall k tk, tget k (fst (run cf init ops)) = Some tk -> t_grant tk = t_grant t -> t_based tk = Some id ->
+               exists tk', tget k s1 = Some tk' /\ t_revoked tk' = true.
+Proof. exact oidc_replay_revokes_default. Qed.
+Print Assumptions C02_oidc_replay_revokes_default.
+(* ... and transitively: everything whose based_on chain leads to the code (what a refresh of a refresh of ... minted). *)
+Theorem C02_oidc_replay_revokes_descendants_default : forall cf ops cl id redir s1 x g t,
+  c_remove_inactive cf = false -> c_oidc cf = true ->
+  find_tok id (fst (run cf init ops)) = Some (g, t) -> g_removed g = false -> t_cls t = Code -> t_used t <> 0%Z ->
+  step cf (fst (run cf init ops)) (TokenParse cl (TRef id) redir) = (s1, x) ->
+  forall k tk, tget k (fst (run cf init ops)) = Some tk -> t_grant tk = t_grant t ->
+               derived_from (S (length (toks (fst (run cf init ops))))) (toks (fst (run cf init ops))) tk id = true ->
+               exists tk', tget k s1 = Some tk' /\ t_revoked tk' = true.
+Proof. exact oidc_replay_revokes_descendants_default. Qed.
+Print Assumptions C02_oidc_replay_revokes_descendants_default.
 
 (* Tokens are never "un-used" or "un-revoked" by any operation (used by C03 as well). *)
 Theorem C02_monotone : forall cf s o, ext s (fst (step cf s o)).
@@ -122,6 +177,48 @@ Example C02_cookie_nonvacuous :
   /\ length (grants s) = 2%nat
   /\ List.map is_tokens (skipn 3 outs) = [false; false; false; false; false; true; false; true; false; false; false; true]
   /\ code_redirect s 0 = Some (redirect_of c1) /\ code_redirect s 1 = Some cb2 /\ code_redirect s 2 = Some (redirect_of c1).
+Proof. vm_compute. repeat split; reflexivity. Qed.
+
+(* RECORDED FINDING (known_findings.txt, key replay-not-revoked:remove-inactive-token): with the flag ON the side conditions
+   above cannot be dropped - the library's walk (transcribed exactly, Model/Session.v `walk`) takes every token that is
+   revoked by then off the list when its first recursive call ends, so (A) a code that was itself revoked and then dropped
+   is answered "Wrong token type" without any cascade, and (C) the cascade stops at a descendant that was revoked earlier
+   (refresh rotation).  The same histories under the default configuration revoke everything. *)
+Definition dia := PS "diana".
+Definition sc_off := [PS "openid"; PS "email"; PS "offline_access"].
+Definition rd1 := Some (redirect_of c1).
+Definition gap_A : list op :=
+  [ Authorize dia c1 sc_off; TokenParse c1 (TRef 0) rd1; Process 0 None;      (* code 0 -> access 1, refresh 2, ID Token 3 *)
+    RevokeEP c1 (TRef 0);                                                      (* the client revokes the code *)
+    ApiRevoke 3 true;                                                          (* any Grant.revoke_token call in that grant *)
+    TokenParse c1 (TRef 0) rd1;                                                (* the code is presented again *)
+    Userinfo (TRef 1); Introspect c1 (TRef 2) ].
+Definition gap_C : list op :=
+  [ Authorize dia c1 sc_off; TokenParse c1 (TRef 0) rd1; Process 0 None;      (* code 0 -> access 1, refresh 2, ID Token 3 *)
+    RefreshParse c1 (TRef 2) None; Process 1 None;                             (* rotation: refresh 2 revoked -> access 4, refresh 5, ID Token 6 *)
+    RefreshParse c1 (TRef 5) None; Process 2 None;                             (* refresh 5 revoked -> access 7, refresh 8, ID Token 9 *)
+    TokenParse c1 (TRef 0) rd1;                                                (* the code is presented again *)
+    Userinfo (TRef 4); Userinfo (TRef 7); Introspect c1 (TRef 8) ].
+Example C02_replay_cascade_remove_inactive_refuted :
+  skipn 5 (snd (run (mk_cfg5 true false false false true) init gap_A))
+    = [OErr EInvalidRequest; OUserinfo; OActive sc_off c1 Refresh]
+  /\ skipn 5 (snd (run (mk_cfg5 true false false false false) init gap_A))
+    = [OErr EInvalidGrant; OErr EInvalidToken; OInactive]
+  /\ skipn 7 (snd (run (mk_cfg5 true true false false true) init gap_C))
+    = [OErr EInvalidGrant; OExc; OUserinfo; OActive sc_off c1 Refresh]
+  /\ skipn 7 (snd (run (mk_cfg5 true true false false false) init gap_C))
+    = [OErr EInvalidGrant; OErr EInvalidToken; OErr EInvalidToken; OInactive].
+Proof. vm_compute. repeat split; reflexivity. Qed.
+(* ... while the plain case - exchange, then the code again, nothing revoked in between - revokes everything under both
+   values of the flag (the flag-on answers are crashes of the endpoints on the dropped tokens: refusals) *)
+Example C02_replay_revokes_both_flags :
+  let h := [ Authorize dia c1 sc_off; TokenParse c1 (TRef 0) rd1; Process 0 None; RefreshParse c1 (TRef 2) None; Process 1 None;
+             TokenParse c1 (TRef 0) rd1;
+             Userinfo (TRef 1); Userinfo (TRef 4); Introspect c1 (TRef 2); Introspect c1 (TRef 5); RefreshParse c1 (TRef 5) None ] in
+  skipn 5 (snd (run (mk_cfg5 true false false false true) init h))
+    = [OErr EInvalidGrant; OExc; OExc; OExc; OExc; OErr EInvalidRequest]
+  /\ skipn 5 (snd (run (mk_cfg5 true false false false false) init h))
+    = [OErr EInvalidGrant; OErr EInvalidToken; OErr EInvalidToken; OInactive; OInactive; OErr EInvalidRequest].
 Proof. vm_compute. repeat split; reflexivity. Qed.
 
 (* TIE BY TRANSLATION: Item.is_active / max_usage_reached / supports_minting as they read in /repo/src NOW
